@@ -793,7 +793,7 @@ def seq_get(ex, v: SeqV, i):
                     if not isinstance(ln, int):
                         return _blk_at(s, z3.simplify(s.n - j))
                     if j <= ln:
-                        return s.items[ln - j] if isinstance(s, Lit) else s.fn(ln - j)
+                        return s.items[ln - j] if isinstance(s, Lit) else s.at(ln - j)
                     j -= ln
                 raise Unsupported("negative index too deep")
         off = 0
@@ -802,7 +802,7 @@ def seq_get(ex, v: SeqV, i):
             if not isinstance(ln, int):
                 return _select_chain(ex, v.segs[k:], (i - off))
             if i < off + ln:
-                return s.items[i - off] if isinstance(s, Lit) else s.fn(i - off)
+                return s.items[i - off] if isinstance(s, Lit) else s.at(i - off)
             off += ln
         raise Unsupported("index out of range in seq_get")
     return _select_chain(ex, v.segs, i.t if isinstance(i, Sym) else i)
@@ -817,7 +817,7 @@ def _blk_at(s, it):
         for k in range(len(vals) - 2, -1, -1):
             res = ite(None, it == k, vals[k], res)
         return res
-    return s.fn(it)
+    return s.at(it)
 
 
 def _select_chain(ex, segs, it):
